@@ -195,11 +195,12 @@ pub fn judge_c12(rec: &mut Recorder, c: &HistCase, ex: Exec, _hello: &Value) -> 
                         live.insert(e.ret, e.a1);
                         ever.insert(e.ret);
                     }
-                    2 => {
-                        if live.remove(&e.a0).is_none() {
-                            return rec.fail(&sig("unmap-of-foreign-or-freed-address"), format!("lifetime {li}: munmap({:#x},{}) during an installation, but that address is not a live mapping of the injector; case {c:?}", e.a0, e.a1));
+                    2 => match crate::acct::release(&mut live, e.a0, e.a1) {
+                        crate::acct::Release::Whole { .. } => {}
+                        other => {
+                            return rec.fail(&sig("unmap-of-foreign-or-freed-address"), format!("lifetime {li}: munmap({:#x},{}) during an installation does not release whole live mappings of the injector ({other:?}); case {c:?}", e.a0, e.a1));
                         }
-                    }
+                    },
                     _ => {}
                 }
             }
@@ -212,14 +213,21 @@ pub fn judge_c12(rec: &mut Recorder, c: &HistCase, ex: Exec, _hello: &Value) -> 
         // exit through the log (every live one must be unmapped now, exactly once)
         for e in &l.drop_log {
             if e.k == 2 {
-                match live.remove(&e.a0) {
-                    None => {
+                // (neighbouring trampolines may be released by one call)
+                match crate::acct::release(&mut live, e.a0, e.a1) {
+                    crate::acct::Release::Foreign => {
                         let what = if ever.contains(&e.a0) { "freed-twice" } else { "unmap-of-foreign-or-freed-address" };
                         return rec.fail(&sig(what), format!("lifetime {li} exit: munmap({:#x},{}) of an address that is not a live trampoline; case {c:?}", e.a0, e.a1));
                     }
-                    Some(len) => {
-                        if (e.a1 + 4095) & !4095 != (len + 4095) & !4095 || e.a1 == 0 || e.ret != 0 {
-                            return rec.fail(&sig("unmap-length-mismatch"), format!("lifetime {li} exit: munmap({:#x},{}) returned {} for a mapping of length {len}; case {c:?}", e.a0, e.a1, e.ret as i64));
+                    crate::acct::Release::Partial => {
+                        return rec.fail(&sig("unmap-length-mismatch"), format!("lifetime {li} exit: munmap({:#x},{}) covers a live trampoline mapping only in part; case {c:?}", e.a0, e.a1));
+                    }
+                    crate::acct::Release::Whole { beyond, .. } => {
+                        if e.a1 == 0 || e.ret != 0 {
+                            return rec.fail(&sig("unmap-length-mismatch"), format!("lifetime {li} exit: munmap({:#x},{}) returned {}; case {c:?}", e.a0, e.a1, e.ret as i64));
+                        }
+                        if beyond {
+                            rec.class("release-also-covers-pages-that-are-not-the-injector's");
                         }
                     }
                 }
@@ -229,9 +237,23 @@ pub fn judge_c12(rec: &mut Recorder, c: &HistCase, ex: Exec, _hello: &Value) -> 
             return rec.fail(&sig("leaked"), format!("lifetime {li} ({} exit, {installs} installs): {} trampoline mapping(s) never released: {:x?}; case {c:?}", l.exit, live.len(), live.keys().collect::<Vec<_>>()));
         }
         // and the kernel agrees: executable anonymous pages are what they were before
-        if l.anon_exec != o.anon_exec_before {
-            let extra: Vec<_> = l.anon_exec.iter().filter(|p| !o.anon_exec_before.contains(p)).collect();
-            let missing: Vec<_> = o.anon_exec_before.iter().filter(|p| !l.anon_exec.contains(p)).collect();
+        // (pages on which the harness has mapped code of its own - on addresses the injector had
+        // released - are somebody else's: they must all still be there, and they are not counted)
+        let mut squat: BTreeSet<u64> = l.squat_pages.iter().copied().collect();
+        for s in &l.steps {
+            squat.extend(s.squatted.iter().copied());
+        }
+        if !squat.is_empty() {
+            rec.class("foreign-code-on-addresses-the-injector-released");
+        }
+        let gone: Vec<&u64> = squat.iter().filter(|p| !l.anon_exec.contains(p)).collect();
+        if !gone.is_empty() {
+            return rec.fail(&sig("foreign-mapping-unmapped"), format!("after lifetime {li}: executable pages {gone:x?}, mapped by somebody else on addresses the injector had released earlier, are gone: the injector unmapped memory it did not allocate; case {c:?}"));
+        }
+        let anon_now: Vec<u64> = l.anon_exec.iter().copied().filter(|p| !squat.contains(p)).collect();
+        if anon_now != o.anon_exec_before {
+            let extra: Vec<_> = anon_now.iter().filter(|p| !o.anon_exec_before.contains(p)).collect();
+            let missing: Vec<_> = o.anon_exec_before.iter().filter(|p| !anon_now.contains(p)).collect();
             return rec.fail(&sig(if !extra.is_empty() { "leaked" } else { "foreign-mapping-unmapped" }), format!("after lifetime {li}: executable anonymous pages differ from before the first injector: extra {extra:x?} missing {missing:x?}; case {c:?}"));
         }
         let mut per_target: BTreeMap<usize, usize> = BTreeMap::new();
